@@ -142,3 +142,28 @@ Theorem recheck_stale_delay_timer_refuted :
     s_ierr (run (fun b => b) 1100%N (fun _ => []) ops (init fs)) = true.
 Proof. exact ProofsC.recheck_stale_delay_timer_refuted. Qed.
 Print Assumptions recheck_stale_delay_timer_refuted.
+
+(* storage_error_sound ("... or a storage error"): unreadable files at ANY piece.  No wrong bit at any
+   moment; in the aborted state the pending notification reports the storage error and closes the
+   download completely; afterwards the torrent can be opened and checked again and that check
+   terminates without an internal error. *)
+Theorem storage_error_sound : forall H pl expected fs0 ops,
+  polite H pl expected (init fs0) ops ->
+  let s := run H pl expected ops (init fs0) in
+  (forall bl i, s_bits s = Some bl -> nth i bl false = true -> valid H pl expected fs0 i = true) /\
+  (s_delay s = true -> is_checking s = false ->
+     let s1 := do_tick s in
+     s_storerr s1 = true /\ s_open s1 = false /\ s_bits s1 = None /\ s_nodes s1 = [] /\ s_hq s1 = [] /\
+     s_ierr s1 = false /\
+     let s2 := do_check pl false (do_open pl s1) in
+     s_ierr s2 = false /\ is_checking (run_all H pl expected (run_all_fuel s2) s2) = false).
+Proof. exact ProofsH.storage_error_sound. Qed.
+Print Assumptions storage_error_sound.
+
+Example storage_error_sound_nonvacuous :
+  let fs0 := [fresh_file 2 false Absent; fresh_file 2 false Unreadable; fresh_file 2 false (Bytes [7;7]%N)] in
+  let ops := [OOpen; OCheck false] in
+  let s := run (fun b => b) 2%N (fun _ => []) ops (init fs0) in
+  polite (fun b => b) 2%N (fun _ => []) (init fs0) ops /\ s_delay s = true /\ is_checking s = false /\
+  s_errno s = true /\ s_storerr (do_tick s) = true.
+Proof. vm_compute. repeat split; reflexivity. Qed.
